@@ -25,7 +25,7 @@ Qed.
 Lemma add_key_keeps keys k x : In x keys -> In x (add_key keys k).
 Proof. unfold add_key. destruct (existsb (pubkey_eqb k) keys); [auto|]. intro H. apply in_or_app. auto. Qed.
 
-(* what start-up leaves in KeymasterPublicKeys: the signer (of an admitted type), the Ed25519 CA
+(* what start-up leaves in KeymasterPublicKeys: the signer (of an accepted type), the Ed25519 CA
    when one is configured, every key of the file *)
 Lemma load_sound kc keys : load kc = Some keys ->
   signer_type_ok (pk_type (kc_signer kc)) = true /\ In (kc_signer kc) keys /\
